@@ -85,3 +85,32 @@ def gen_c01_random(rnd, tier):
         out.append({'m': 'curve', 'op': 'stations', 'dim': dim, 'tolU': 0, 'fc': fc, 'sc': rnd.choice((0, -10, 4, -3, 7)),
                     'pts': pts, 'ls': ls, 'fs': fs})
     return out
+
+
+def gen_c05_random(rnd, tier):
+    """many (total length, count / spacing) pairs: rounding of the last sample position is pair-specific"""
+    n = 2000 if tier == 'quick' else 20000
+    out = []
+    for _ in range(n):
+        dim = rnd.choice((2, 3))
+        fc = dim == 2 and rnd.random() < 0.3
+        nv = rnd.randint(2, 6)
+        pts = lattice_curve(rnd, nv, 14, dim, closed=fc)
+        built = pts + [pts[0]] if fc else pts
+        L2 = 2 * cum(built)[-1]
+        mode = rnd.choice(('count', 'count', 'spacing', 'maxspacing'))
+        if mode == 'count':
+            k = rnd.randint(3 if fc else 2, 64)
+        elif mode == 'spacing':
+            k = rnd.randint(1, max(1, L2 - 1))
+            if L2 // k > 70:
+                k = max(1, L2 // rnd.randint(2, 60))
+        else:
+            k = rnd.randint(max(1, L2 // 60), 2 * L2)
+            if fc and k >= L2:
+                k = max(1, L2 // 2)
+        if mode == 'spacing' and dim == 3 and k >= L2:
+            continue
+        out.append({'m': 'curve', 'op': 'resample', 'dim': dim, 'pts': pts, 'fc': fc, 'sc': rnd.choice((0, -10, 4, -3, 7)),
+                    'tolU': 0, 'mode': mode, 'n': k})
+    return out
